@@ -116,6 +116,8 @@ class Unit:
 
     def flags(self):
         f = ['-std=c++' + self.std, '-I' + str(REPO / 'include'), '-I' + str(ROOT / 'harness')]
+        if self.compiler == 'g++':
+            f += ['-fno-lifetime-dse']  # keep the "dead" marker an element writes into itself in its destructor
         if self.kind == 'asan':
             f += ASAN_FLAGS
         elif self.kind == 'tsan':
